@@ -12,6 +12,7 @@
      user_active / In _ (st_bypass st) / db_authorises : the three ways a UID is authorised. *)
 From Coq Require Import NArith ZArith List Bool.
 From Cloak Require Import Gen.Consts Model.Hello Model.FirstPacket Model.Dispatch Proofs.Dispatch.
+From Cloak Require Import Model.Crypto.X25519 Model.DispatchInst Model.LowOrder Proofs.LowOrder.
 Import ListNotations.
 Local Open Scope N_scope.
 
@@ -104,3 +105,119 @@ Print Assumptions C07_window_edges.
 Theorem C07_tolerance_is_180s : tolerance = (180 * ns_per_s)%Z.
 Proof. exact tolerance_180s. Qed.
 Print Assumptions C07_tolerance_is_180s.
+
+(* ------------------------------------------------------------------------------------------------------
+   The key agreement.  [dh] is X25519 as the server calls it (internal/ecdh.GenerateSharedSecret =
+   curve25519.X25519 = crypto/ecdh): it FAILS ([None]) when the result would be the all-zero string, which
+   happens exactly for the small-order inputs (Model/LowOrder.v: 14 strings).  A sender who picks such a value
+   knows the "secret" (zero) without knowing the server's public key; the theorems below say that no such
+   packet is ever accepted, that the AEAD key of an accepted packet is never the zero string, and that the block
+   of an accepted packet IS the AES-GCM sealing under X25519(server private key, ephemeral value of the packet).
+   That nobody can compute that key without the server's private key or the ephemeral private key together with
+   the server's PUBLIC key (the credential every client holds) is the computational assumption about X25519 and
+   AES-GCM; it is not a theorem of any model and is named in the trusted base. *)
+Section C07_key_agreement.
+  Variable dh : list N -> list N -> option (list N).
+  Variable gcm_open : list N -> list N -> list N -> list N -> option (list N).
+  Hypothesis gcm_open_len : forall k n ct aad pt, gcm_open k n ct aad = Some pt -> (length pt + 16 = length ct)%nat.
+  (* crypto/ecdh: "bad X25519 remote ECDH input: low order point" *)
+  Hypothesis dh_rejects_low_order : forall pv u, low_order u = true -> dh pv u = None.
+
+  (* no first packet whose ephemeral value is a small-order point is accepted by AuthFirstPacket or becomes a
+     session - whatever its 64-byte block, the server state and the clock *)
+  Theorem C07_accepted_not_low_order : forall p st now ci,
+    auth_first_packet dh gcm_open p st now = DOk ci ->
+    exists fr, first_packet dh p (st_staticPv st) = Ok fr /\ low_order (f_rand fr) = false.
+  Proof. exact (accepted_not_low_order dh gcm_open gcm_open_len dh_rejects_low_order). Qed.
+
+  Theorem C07_session_not_low_order : forall p st now,
+    is_session (decide dh gcm_open p st now) ->
+    exists fr, first_packet dh p (st_staticPv st) = Ok fr /\ low_order (f_rand fr) = false.
+  Proof. exact (session_not_low_order dh gcm_open gcm_open_len dh_rejects_low_order). Qed.
+
+  (* positively: a ClientHello (direct) / hidden header (CDN) carrying such a value is a parse error at the key
+     agreement, i.e. ordinary web traffic *)
+  Theorem C07_low_order_tls_is_web : forall data ch st now,
+    parseClientHello data = Ok ch -> low_order (copy_into 32 (ch_random ch)) = true ->
+    auth_first_packet dh gcm_open (PTLS data) st now = DFail (RParse EDH) /\
+    decide dh gcm_open (PTLS data) st now = Redirect (RParse EDH).
+  Proof. exact (low_order_tls_is_web dh gcm_open gcm_open_len dh_rejects_low_order). Qed.
+
+  Theorem C07_low_order_ws_is_web : forall h st now,
+    (96 <= length h)%nat -> low_order (copy_into 32 (firstn 32 h)) = true ->
+    auth_first_packet dh gcm_open (PWS (Some h)) st now = DFail (RParse EDH) /\
+    decide dh gcm_open (PWS (Some h)) st now = Redirect (RParse EDH).
+  Proof. exact (low_order_ws_is_web dh gcm_open gcm_open_len dh_rejects_low_order). Qed.
+End C07_key_agreement.
+Print Assumptions C07_accepted_not_low_order.
+Print Assumptions C07_session_not_low_order.
+Print Assumptions C07_low_order_tls_is_web.
+Print Assumptions C07_low_order_ws_is_web.
+
+(* The hypothesis is a THEOREM of the Gallina X25519 the correspondence runs (Montgomery ladder of RFC 7748 with
+   clamping and bit-255 masking, all-zero output = error): for EVERY private key and every one of the small-order
+   inputs the ladder yields 0.  Proved over all scalars by an invariant on the projective pair ([m]P, [m+1]P). *)
+Theorem C07_x25519_rejects_low_order : forall pv u, low_order u = true -> dh_real pv u = None.
+Proof. exact dh_real_rejects_low_order. Qed.
+Print Assumptions C07_x25519_rejects_low_order.
+
+(* the small-order inputs are exactly the 14 listed values (7 below 2^255, and each with bit 255 set) *)
+Theorem C07_low_order_list :
+  forallb low_order low_order_points = true /\
+  forall v, (0 <= v < 2 ^ 256)%Z -> low_order_x (freduce (mask_u v)) = true -> In v low_order_values.
+Proof. exact (conj low_order_points_low low_order_values_complete). Qed.
+Print Assumptions C07_low_order_list.
+
+(* hence, for the instantiated model (Gallina X25519 + Gallina AES-GCM), without any hypothesis: an accepted
+   packet never carries a small-order ephemeral value; its AEAD key is the X25519 output, 32 bytes, never
+   all-zero; and its 64-byte block is exactly gcm_seal under that key, nonce = first 12 bytes of the ephemeral
+   value, of a 48-byte plaintext whose timestamp is inside the window *)
+Theorem C07_accepted_not_low_order_x25519 : forall p st now ci,
+  auth_first_packet dh_real Model.Crypto.GCM.gcm_open p st now = DOk ci ->
+  exists fr, first_packet dh_real p (st_staticPv st) = Ok fr /\ low_order (f_rand fr) = false.
+Proof. exact real_accepted_not_low_order. Qed.
+Print Assumptions C07_accepted_not_low_order_x25519.
+
+Theorem C07_accepted_key_nonzero_x25519 : forall p st now ci,
+  auth_first_packet dh_real Model.Crypto.GCM.gcm_open p st now = DOk ci ->
+  exists fr pt, first_packet dh_real p (st_staticPv st) = Ok fr /\
+    dh_real (st_staticPv st) (f_rand fr) = Some (f_shared fr) /\ f_shared fr <> repeat 0 32 /\
+    Model.Crypto.GCM.gcm_open (f_shared fr) (firstn 12 (f_rand fr)) (f_ct fr) [] = Some pt /\ ci = info_of pt.
+Proof. exact real_accepted_key_nonzero. Qed.
+Print Assumptions C07_accepted_key_nonzero_x25519.
+
+Theorem C07_accepted_is_sealed_x25519_gcm : forall p st now ci,
+  auth_first_packet dh_real Model.Crypto.GCM.gcm_open p st now = DOk ci ->
+  exists fr sh pt, first_packet dh_real p (st_staticPv st) = Ok fr /\
+    dh_real (st_staticPv st) (f_rand fr) = Some sh /\
+    f_ct fr = Model.Crypto.GCM.gcm_seal (copy_into 32 sh) (firstn 12 (f_rand fr)) pt [] /\
+    length pt = 48%nat /\ in_window (pt_ts pt) now = true /\ ci = info_of pt.
+Proof. exact real_accepted_is_sealed. Qed.
+Print Assumptions C07_accepted_is_sealed_x25519_gcm.
+
+(* the general forms of the last two, for every X25519 / AES-GCM with the stated properties *)
+Theorem C07_accepted_key_nonzero : forall (dh : list N -> list N -> option (list N))
+  (gcm_open : list N -> list N -> list N -> list N -> option (list N)),
+  (forall k n ct aad pt, gcm_open k n ct aad = Some pt -> (length pt + 16 = length ct)%nat) ->
+  (forall pv u s, dh pv u = Some s -> length s = 32%nat /\ s <> repeat 0 32) ->
+  forall p st now ci,
+  auth_first_packet dh gcm_open p st now = DOk ci ->
+  exists fr pt, first_packet dh p (st_staticPv st) = Ok fr /\
+    dh (st_staticPv st) (f_rand fr) = Some (f_shared fr) /\ f_shared fr <> repeat 0 32 /\
+    gcm_open (f_shared fr) (firstn 12 (f_rand fr)) (f_ct fr) [] = Some pt /\ ci = info_of pt.
+Proof. exact accepted_key_nonzero. Qed.
+Print Assumptions C07_accepted_key_nonzero.
+
+Theorem C07_accepted_is_sealed : forall (dh : list N -> list N -> option (list N))
+  (gcm_open : list N -> list N -> list N -> list N -> option (list N)),
+  (forall k n ct aad pt, gcm_open k n ct aad = Some pt -> (length pt + 16 = length ct)%nat) ->
+  forall gcm_seal : list N -> list N -> list N -> list N -> list N,
+  (forall k n c p, gcm_open k n c [] = Some p -> c = gcm_seal k n p []) ->
+  forall p st now ci,
+  auth_first_packet dh gcm_open p st now = DOk ci ->
+  exists fr sh pt, first_packet dh p (st_staticPv st) = Ok fr /\
+    dh (st_staticPv st) (f_rand fr) = Some sh /\
+    f_ct fr = gcm_seal (copy_into 32 sh) (firstn 12 (f_rand fr)) pt [] /\
+    length pt = 48%nat /\ in_window (pt_ts pt) now = true /\ ci = info_of pt.
+Proof. exact accepted_is_sealed_to_server. Qed.
+Print Assumptions C07_accepted_is_sealed.
